@@ -385,11 +385,19 @@ def Out.accepted : Out → Bool
   | .next _ _ | .acceptAbort _ | .post => true
   | _ => false
 
-/-- `_getMsg` on a record that passed the record layer; `plus` = another handshake message follows
-    in the same record (the defragmenter is not empty after this message) -/
+/-- the first hello of a TLS 1.3 handshake: `_getMsg` cannot check its alignment (the version is
+    not known yet), the flow does it once the version is set (`_clientGetServerHello` after
+    `self.version = real_version`, `_serverGetClientHello` after `self.version = version`) -/
+def firstHello (c : Cfg) (s : St) (k : MsgKind) : Bool :=
+  c.isTls13 && ((s == .cWaitSH && k == .server_hello) || (s == .sWaitCH && k == .client_hello))
+
+/-- `_getMsg` on a record that passed the record layer; `plus` = further handshake bytes follow in
+    the same record (the defragmenter is not empty after this message) -/
 def stepK (c : Cfg) (s : St) (k : MsgKind) (plus : Bool) : Out :=
   let o := stepK0 c s k
-  if plus && v13Active c s && mustAlign k && o.accepted then .abort .unexpected_message else o
+  if plus && v13Active c s && mustAlign k && o.accepted then .abort .unexpected_message
+  else if plus && firstHello c s k then .acceptAbort .unexpected_message
+  else o
 
 /-- one incoming message as the record layer sees it -/
 structure Msg where
